@@ -88,9 +88,9 @@ def ip4Strict (h : Bytes) : Bool :=
 def ipNormAny (ip : IpOracle) (h : Bytes) : Option Bytes :=
   if ip4Strict h then some h else ip.norm6 h
 
-/-- `host.removeprefix("[").removesuffix("]")` -/
+/-- `host[1:-1] if host.startswith("[") and host.endswith("]") else host` (message.py `_quote_host`:
+brackets only count in pairs) -/
 def unbracket (h : Bytes) : Bytes :=
-  let h := if h.head? == some 91 then h.drop 1 else h
-  if h.getLast? == some 93 then h.dropLast else h
+  if h.head? == some 91 && h.getLast? == some 93 then (h.drop 1).dropLast else h
 
 end Aiocoap.Uri
